@@ -65,6 +65,10 @@ def run(tier):
   # of the registration adapter: every callable / class shape (construction through __init__, __new__, both, inherited,
   # metaclass, slots, namedtuple, decorated, closed __new__ over a catch-all mixin ...) receives its binding through a
   # reference, a selector and the original object, scoped and unscoped
+  # methods: bindings made (also under a scope) and calls made while the function was not yet a method of a registered
+  # class still reach it afterwards (GinRegister: the entry is renamed, nothing else changes)
+  from ginverif.checks import c11
+  c11.methods_via_class(rep)
   from ginverif import adapter_register as R
   for shape in sorted(R.SHAPES):
     for api in ('external', 'register', 'configurable'):
